@@ -310,7 +310,9 @@ func ruleSDigest(c *Ctx) {
 	for _, n := range []string{"CalcInputPreimage", "CalcInputPreimageLegacy"} {
 		direct := keysSorted(callers[n])
 		taken := keysSorted(addrTaken[n])
-		c.Check(len(direct) == 0 && len(taken) == 1 && taken[0] == "(*bt.Tx).sigStrat", "S-digest", "who/"+n, token.NoPos, n+" is used only as the function value chosen by sigStrat",
+		okDirect := len(direct) == 0 || (len(direct) == 1 && direct[0] == "(*bt.Tx).CalcInputSignatureHash")
+		okTaken := len(taken) == 0 || (len(taken) == 1 && taken[0] == "(*bt.Tx).sigStrat")
+		c.Check(okDirect && okTaken && len(direct)+len(taken) >= 1, "S-digest", "who/"+n, token.NoPos, n+" is used only by CalcInputSignatureHash (called there, or as the function value chosen by sigStrat)",
 			fmt.Sprintf("%s is called from %v and taken as a value in %v: a digest may be computed outside CalcInputSignatureHash", n, direct, taken))
 	}
 	want := []string{"(*unlocker.Simple).UnlockingScript", "bscript/interpreter.opcodeCheckMultiSig", "bscript/interpreter.opcodeCheckSig"}
